@@ -358,6 +358,13 @@ def standalone_scripts(ctx):
             for idx in (0, 1, 5, 2**32, 2**64 - 1): L.append("sa gparamnc %d" % idx)
             L.append("sa pgroup")
             for idx in (0, 2, 3, 9, 2**64 - 1): L.append("sa pgroupnc %d" % idx)
+        # look-ups by name interleaved with in-place renames (a name moving to an EARLIER group, duplicates, a name vanishing)
+        for nm in (b"EXTRA", b"POINT", b"FORCE_PLATFORM", b"nope"):
+            L.append("sa pgroupidx %s" % X(nm)); L.append("sa pgroupn %s" % X(nm))
+        L += ["sa prename 0 %s" % X(b"FORCE_PLATFORM"), "sa pgroupidx %s" % X(b"FORCE_PLATFORM"), "sa pgroupn %s" % X(b"FORCE_PLATFORM"),
+              "sa pgroupidx %s" % X(b"POINT"), "sa prename 2 %s" % X(b"MOVED"), "sa pgroupidx %s" % X(b"FORCE_PLATFORM"), "sa pgroupidx %s" % X(b"MOVED"),
+              "sa prename 1 %s" % X(b"MOVED"), "sa pgroupidx %s" % X(b"MOVED"), "sa pgroupn %s" % X(b"MOVED"), "sa prename 99 %s" % X(b"x"),
+              "sa gnew %s x" % X(b"MOVED"), "sa gparam %s x 0 I - 7" % X(b"Z"), "sa pgroup", "sa pgroupidx %s" % X(b"MOVED")]
         out.append((L, {"standalone": 1}, "standalone-%d" % i))
     return out
 
@@ -472,8 +479,8 @@ def get_scripts(ctx):
 
 def c11(ctx):
     ctx.audit = leanaudit.audit(ctx.pid, thorough=not ctx.quick)
-    scripts = corpus_scripts(ctx.pid) + get_scripts(ctx)
-    _run_scripts(ctx, scripts, "get", oracles.c11)
+    scripts = corpus_scripts(ctx.pid) + get_scripts(ctx) + standalone_scripts(ctx)     # look-ups on the stand-alone parameter classes too
+    _run_scripts(ctx, scripts, "get", lambda res: oracles.c11(res) + oracles.c09_standalone(res))
     # loaded vendor file: containers filled by the reader (byte-typed values, events)
     L = ["dumpmode shape", "load /repo/test/c3dFiles/Vicon.c3d", "dumpmode full"]
     for i in [0, 1, 579, 580, 581, 2**32, 2**64 - 1]: L.append("get frame %d" % i)
@@ -489,6 +496,10 @@ def c11(ctx):
             for pi in range(0, 8):
                 for ty in "BIFC": S.append("get vals %d %d %s" % (g, pi, ty))
             S.append("get group %d" % g)
+        # header events exist only in files (0, 1, 3 or all 18 slots used): every slot of the three tables, and beyond
+        for i_ in list(range(19)) + [2**32, 2**64 - 1]:
+            S.append("get evtime %d" % i_); S.append("get evlabel %d" % i_)
+            if i_ < 10 or i_ > 18: S.append("get evdisplay %d" % i_)
         res = run.run_pair(S, ctx.exe("asan"), wd=wd)
         fails = oracles.c11(res)
         run.cleanup(wd)
@@ -1026,7 +1037,9 @@ def c15(ctx):
         else:
             n = 256 if ctx.quick else 2048
             ks = sorted(set([0, 1, 511, 512, 513, 1023, 1024, 1025, tot - 2, tot - 1, tot, tot + 1] + [tot * i // n for i in range(n)] + [8191 * i + d for i in range(1, tot // 8191 + 1) for d in (-1, 0, 1)]))
-        S = L + ["savefault @W@/q.c3d %d" % k for k in ks] + ["save @W@/full.c3d", "savex /nonexistent-dir-verif/x.c3d", "savex /dev/full", "savex @W@/lim.c3d %d" % max(tot // 2, 1),
+        # transient faults: ONE write call refused at offset k, everything after it accepted (the failure must still be reported)
+        once = ["savefault @W@/q.c3d %d once" % k for k in ks[::5] + [0, 1, 600, tot - 1]]
+        S = L + ["savefault @W@/q.c3d %d" % k for k in ks] + once + ["save @W@/full.c3d", "savex /nonexistent-dir-verif/x.c3d", "savex /dev/full", "savex @W@/lim.c3d %d" % max(tot // 2, 1),
                  "savex @W@/lim0.c3d 0", "savex /proc/version", "savex @W@"]
         res = run.run_pair(S, exe, timeout=900)
         fails = []
@@ -1105,6 +1118,8 @@ def c16_field_positions(b):
             if gid > 0:
                 q = o + 2; pos |= {q, q + 1}
                 nd = b[q + 1]; pos |= set(range(q + 2, q + 2 + nd))
+                # the value bytes of scalars: the count and rate parameters (POINT:USED, FRAMES, ANALOG:USED ...) steer allocations
+                if nd == 0: pos |= set(range(q + 2, q + 2 + min(abs(struct.unpack_from("b", b, q)[0]), 4)))
             pos.add(o + off - 1 if off else o)
             if off == 0: break
             p = o + off
@@ -1284,6 +1299,13 @@ def c13(ctx):
     # destruction after refused calls, print on loaded vendor files
     scripts.append((["dumpmode none", "load /repo/test/c3dFiles/Vicon.c3d", "print", "save @W@/v.c3d", "load @W@/v.c3d", "print"], {}, "vicon-print"))
     scripts.append((["dumpmode none", "load /repo/test/c3dFiles/Qualisys.c3d", "print", "load /repo/test/c3dFiles/Optotrak.c3d", "print", "save @W@/o.c3d"], {}, "qualisys-optotrak"))
+    # string tables whose entries differ a lot in length (the padding of the short ones is longer than any one-byte length),
+    # entries at and just beyond 255, many entries: saved, loaded back where the format can hold them
+    X = gen.xhex
+    for k, (la, lb) in enumerate([(300, 1), (1, 300), (255, 0), (256, 1), (1000, 2), (255, 255), (129, 1)]):
+        vals = ",".join([X(bytes(65 + (i % 26) for i in range(la))) if la else "x", X(bytes(97 + (i % 26) for i in range(lb))) if lb else "x", X(b"m")])
+        scripts.append((["new", "param %s %s x 0 C - %s" % (X(b"LONG"), X(b"TABLE"), vals), "save @W@/t.c3d", "print",
+                         "param %s %s x 0 C - %s" % (X(b"POINT"), X(b"DESCRIPTIONS"), vals), "save @W@/t2.c3d"], {"long_short_strings": 1}, "long-short-%d" % k))
     _run_scripts(ctx, scripts, "histories", None, timeout=300)
     # generated well-formed files: load, print, save, destroy
     n = 60 if q else 1500
@@ -1523,6 +1545,12 @@ def c19(ctx):
         seed = ctx.seed * 100003 + 70000 + i
         L, st = gen.gen_api_history(seed, nops=25, malformed=0.2, with_io="@W@/f")
         jobs.append((L, "api-%d" % seed, None))
+    # the reproducers of the recorded findings and fixes (refused calls that leave a partial state, retyped mandatory parameters,
+    # missing parameters ...): paths on which an exception is - or used to be - in flight are where an uninitialised local shows
+    for pid_ in ("C05", "C10", "C03", "C01", "C13"):
+        for L_, st_, tag_ in corpus_scripts(pid_):
+            L_ = [l for l in L_ if l.split(" ")[0] not in ("specdecode", "lwcheck", "savex", "savefault", "sep")]     # ops only one side answers
+            jobs.append((L_, "corpus-%s-%s" % (pid_, tag_), None))
     for i in range(n // 2):
         jobs.append((["dumpmode full", "load @W@/in.c3d", "save @W@/o.c3d", "load @W@/o.c3d", "save @W@/o2.c3d"], "file-%d" % i, ctx.seed * 53 + i))
     # files whose reserved header words are not zero: they pass through the multi-byte integer reader (270 and 44 bytes at a time)
